@@ -135,3 +135,19 @@ Example c06_bounded_storage_nonvacuous :
   pend s2 = [] /\ sfreed s2 = [(5%N, [12]%positive)] /\
   sfreed s3 = [] /\ alloc s3 = [13; 4; 10; 1; 2]%positive /\ vdata (lat s3) = [1;2;4]%positive /\ vsys (lat s3) = [10;13]%positive.
 Proof. vm_compute. repeat split; reflexivity. Qed.
+
+(* ------------------------------------------------------------------------------------------------
+   Tie to the code (Gen/Fns.v is regenerated from transactions.rs on every run by tools/gen_fns.py; see
+   design.d/GEN.md): the free horizons of the ownership model are the expressions translated from
+   durable_commit / non_durable_commit (`oldest_live_read...().map_or(transaction_id, |x| x.next())`). *)
+From RV Require Import Gen.FnsLib Gen.Fns Gen.FnsTxnP.
+
+Theorem c06_code_durable_commit_free_until_is_model : forall dflt s,
+  Own.horizon dflt s = durable_commit_free_until (PSet.minN (Own.live_ids s)) dflt.
+Proof. exact own_horizon_is_model. Qed.
+
+Theorem c06_code_non_durable_commit_free_until_is_model : forall dflt s,
+  Own.nd_horizon dflt s
+  = non_durable_commit_free_until
+      (PSet.minN (filter (fun r => PSet.memN r (map fst (Own.pend s))) (map Own.ptxn (Own.pins s)))) dflt.
+Proof. exact own_nd_horizon_is_model. Qed.
